@@ -1023,6 +1023,7 @@ def decorate_for_help(d, rnd, hostile=None):
             lvl["footer"] = f"FOOTER-{tag}"
         if rnd.random() < 0.12:
             lvl["usage"] = f"Usage: app USAGE-{tag}"      # the whole usage line replaced (usage / with_usage)
+            lvl["usage_token"] = f"USAGE-{tag}"
         for f in lvl["named"]:
             for it in field_leaves(f):
                 it["help"] = f"HELP-{tag}-{it['id']}"
